@@ -162,7 +162,8 @@ def _num(n, rnd):
 
 def handler_value(out, rnd):
     if out == "ok20":
-        return GeminiResponse(status=_num(20, rnd), meta="text/gemini", body=BODY)
+        from .responses import shaped
+        return shaped(_num(20, rnd), "text/gemini", BODY, rnd.randrange(4))
     if out == "ok20bytes":
         return GeminiResponse(status=20, meta="application/octet-stream", body=BODY_BYTES)
     if out == "ok20empty":
